@@ -11,14 +11,18 @@ keep-alive expiry, Server.Close) with the third party ending before or after it,
 The model stream is computed from lean/Mqtt/Model/Lifecycle.lean (the condition is a model state, the cause an
 environment event, the outcome what a fair round-robin schedule reaches); the tie is line equality, tokens
 included.  The specification (lean/Mqtt/Spec/Lifecycle.lean) is the property text: teardown complete, will unless
-DISCONNECT, bystander alive, Server.Close returns, no goroutine left.  The oracle ignores the `held-up-by-*`
-tokens: they mark the property's exemption (a still-open connection that has stopped reading holds up a
+DISCONNECT, bystander alive, Server.Close returns, no goroutine left.  The oracle ignores the `held-up-by-third`
+token: it marks the property's exemption (ANOTHER still-open connection that has stopped reading holds up a
 delivery from the subject; the harness then ends that connection and the teardown has to complete) -
 except when the cause is Server.Close, whose return the property demands without exemption.
+`held-up-by-self` (the subject's processor is parked behind the subject's OWN client) is no exemption since
+the repair b77088f (finding F7): the oracle rejects it; it is still seen - as the open finding F8 - where the
+cause cannot be noticed at all (`selffull keepalive`: the receiver waits for ring space, no read deadline is armed).
 """
 from .props import Prop, Run, register, COMMON_TRUSTED
+from .props_ka import ka_oracle, ka_recv_parked
 
-_TOKENS = ('held-up-by-third', 'held-up-by-self')
+_TOKENS = ('held-up-by-third',)
 
 
 def _strip(line):
@@ -27,6 +31,9 @@ def _strip(line):
 
 def life_oracle(op, impl, spec):
     w = op.split()
+    if w and w[0] == 'ka':
+        # witnesses of the keep-alive findings F7 / F8, which are findings of C16 as well
+        return ka_oracle(op, impl, spec)
     if len(w) >= 4 and w[3] == 'srvclose':
         # "Server.Close returns" carries no exemption: a Close that was still waiting behind a third
         # party's client when the harness gave up on it (token held-up-by-third) has failed
@@ -43,6 +50,16 @@ def chunk_wedge(ops_prefix, impl=None, spec=None):
     peer (close) or by silence (keep-alive): neither receiver nor processor reads the socket any more"""
     w = ops_prefix[-1].split()
     return len(w) >= 4 and w[0] == 'life' and w[1] == 'run' and w[2] == 'chunked' and w[3] in ('close', 'keepalive')
+
+
+def recv_parked(ops_prefix, impl=None, spec=None):
+    """known-finding class F8: keep-alive on a connection whose receiver waits for ring space (both rings full behind a
+    client that has stopped reading and kept sending): no socket read is pending, the deadline is not armed; the
+    harness reports `held-up-by-self` and ends the client"""
+    w = ops_prefix[-1].split()
+    if w and w[0] == 'ka':
+        return ka_recv_parked(ops_prefix, impl, spec)
+    return len(w) >= 4 and w[0] == 'life' and w[1] == 'run' and w[2] == 'selffull' and w[3] == 'keepalive'
 
 
 LIFE_ASSUMPTIONS = [
@@ -63,15 +80,16 @@ LIFE_ASSUMPTIONS = [
 register(Prop(
     'C16', 'Mqtt.Properties.C16', ['life'],
     runs=[Run('life', quick=11, thorough=40, seeds_thorough=2),
-          Run('life-pairs', quick=5, thorough=32, seeds_thorough=2),
-          Run('life-srv', quick=5, thorough=18, seeds_thorough=2),
+          Run('life-pairs', quick=7, thorough=36, seeds_thorough=2),
+          Run('life-srv', quick=5, thorough=20, seeds_thorough=2),
           Run('life-chunked', quick=1, thorough=3, seeds_thorough=1, extra=())],
     oracle=life_oracle, nontrivial=life_nontrivial, spec_total=False,
-    classes={'chunk_wedge': chunk_wedge},
+    classes={'chunk_wedge': chunk_wedge, 'recv_parked': recv_parked},
     assumptions=LIFE_ASSUMPTIONS,
     trusted=COMMON_TRUSTED + [
         "regenerated facts: statement order of service.stop (CAS, close(done), conn.Close, in.Close, out.Close, wgStopped.Wait, unsubscribe, "
         "will, session delete), its guards, the deferred recover of processor/receiver/sender/stop, processor's deferred Done-then-stop, "
-        "the processor loop, writeMessage's lock structure, Server.Close closing all outgoing rings before the first stop (tied by decide)",
+        "the processor loop, writeMessage's lock structure, Server.Close closing all outgoing rings before the first stop, the receiver's "
+        "`if err != nil { conn.Close(); return }` after ReadFrom (tied by decide)",
         "the harness's raw clients, its teardown-finished hook (build tag verif), the goroutine dump filtered to library frames",
     ]))
